@@ -44,6 +44,7 @@ def run(ctx):
                                      allow_sift_call=True)
     ctx.rule(rule_worker_pure, 'C08.R1')
     ctx.rule(rule_noise_update, 'C08.R4')
+    ctx.rule(rule_noise_mode_forwarded, 'C08.R5')
 
 
 def _bound_for_site(P, fi, site):
@@ -649,3 +650,42 @@ def rule_noise_update(ctx, rid):
                       % (n, ', '.join(sorted(wheres)) or 'none'))
     else:
         ctx.passed(rid, fi, c, '%d update states' % n)
+
+
+def rule_noise_mode_forwarded(ctx, rid):
+    """Every dispatch of the noise worker receives the caller's noise_mode: evaluated with noise_mode='flip' (the
+    non-default value), every job tuple / keyword set must bind the worker's noise_mode to 'flip' - a tuple that
+    omits it silently falls back to the worker's default 'single' for that dispatch only."""
+    P = ctx.P
+    w = P.func(WORKER)
+    for q in ('emd.sift.ensemble_sift', 'emd.sift.complete_ensemble_sift'):
+        fi = P.func(q)
+        c = 'noise_mode reaches every dispatch of the noise worker'
+        sites, nexits, _ev = collect_sites(P, fi, context={'noise_mode': 'flip'})
+        ds = [x for x in sites.values() if x.kind in ('starmap', 'map', 'call', 'partial') and P.funcs.get(x.callee) is w]
+        ctx.paths += nexits
+        if not ds:
+            ctx.undecided(rid, fi, c, 'no dispatch of the noise worker found')
+            continue
+        bad = None
+        n = 0
+        # a partial that already binds noise_mode serves the dispatches made through it
+        by_partial = any(x.kind == 'partial' and all(b.get('noise_mode') == C('flip') for b, st_, env, tr in x.states)
+                         for x in ds)
+        for s in ds:
+            if s.kind == 'partial':
+                continue
+            for bound, star, env, trace in s.states:
+                n += 1
+                got = bound.get('noise_mode')
+                if got == C('flip') or (got is None and by_partial):
+                    continue
+                bad = (s, 'with noise_mode=\'flip\' a dispatch binds the worker\'s noise_mode to %s: these members are sifted '
+                       'with a single noise realisation while the others are sign-flip pairs'
+                       % (show(got)[:30] if got is not None else 'its default \'single\' (the argument is not passed)'))
+        if bad:
+            ctx.violation(rid, fi, c, bad[1], node=bad[0].node)
+        elif n == 0:
+            ctx.undecided(rid, fi, c, 'no dispatch state')
+        else:
+            ctx.passed(rid, fi, c, '%d dispatch state(s)' % n)
